@@ -528,6 +528,15 @@ func (u *Unit) step(s *State) []*State {
 		if stop := u.enterBlock(s, f); stop {
 			return nil
 		}
+		if f.Fn == u.Fn && len(s.Frames) == 1 {
+			if u.BlockProbes == nil {
+				u.BlockProbes = map[int][]*Query{}
+			}
+			if len(u.BlockProbes[f.Block.Index]) < 3 {
+				u.BlockProbes[f.Block.Index] = append(u.BlockProbes[f.Block.Index],
+					&Query{Decls: append([]string(nil), s.Decls...), PC: append([]*Term(nil), s.PC...), Goal: False})
+			}
+		}
 	}
 	if f.Idx >= len(f.Block.Instrs) {
 		u.unsup("fell off block")
@@ -1211,7 +1220,24 @@ func (u *Unit) binop(s *State, in ssa.Instruction, op token.Token, a, b Value, r
 		case token.SHL, token.SHR:
 			return Value{T: u.shift(s, in, op, at, bt, a.Ty, b.Ty), Ty: rty}
 		case token.AND, token.OR, token.XOR, token.AND_NOT:
-			return Value{T: u.bitop(s, op, at, bt, rty), Ty: rty}
+			r := u.bitop(s, op, at, bt, rty)
+			if _, lit := r.intVal(); !lit && r.Sort == "Int" && strings.Contains(r.String(), "int2bv") {
+				// sound two's-complement facts that spare the solver the int<->bit-vector bridge:
+				// a|b == 0 iff both are 0; a&b != 0 needs both non-zero; for non-negative operands the
+				// result is non-negative, a&b is at most either operand and a|b at least either operand
+				zero := IntLit(0)
+				switch op {
+				case token.OR:
+					r = u.named(s, "bor", r)
+					s.assume(Eq(Eq(r, zero), And(Eq(at, zero), Eq(bt, zero))))
+					s.assume(Implies(And(Ge(at, zero), Ge(bt, zero)), And(Ge(r, at), Ge(r, bt))))
+				case token.AND:
+					r = u.named(s, "band", r)
+					s.assume(Implies(Not(Eq(r, zero)), And(Not(Eq(at, zero)), Not(Eq(bt, zero)))))
+					s.assume(Implies(And(Ge(at, zero), Ge(bt, zero)), And(Ge(r, zero), Le(r, at), Le(r, bt))))
+				}
+			}
+			return Value{T: r, Ty: rty}
 		}
 	case isString(ty):
 		switch op {
@@ -1899,6 +1925,9 @@ func (u *Unit) inFrame(s *State, key string, ref, idx *Term) *Term {
 			c := Eq(ref, loc.ref)
 			if idx != nil && loc.lo != nil {
 				c = And(c, Le(loc.lo, idx), Lt(idx, loc.hi))
+			}
+			if loc.cond != nil {
+				c = And(loc.cond, c)
 			}
 			alts = append(alts, c)
 		}
